@@ -256,3 +256,44 @@ Proof.
   revert H. generalize (new_classes (j :: J) T ++ map fst (j :: J)). intros l H.
   induction H; constructor; auto using nest_class_ok.
 Qed.
+
+(* ---------- the jar side renames exactly the classes the filter kept ---------- *)
+
+Lemma filter_nodup J T p cr : NoDup (keys T) -> NoDup (keys (fst (filter_nests J T p cr))).
+Proof.
+  revert p cr; induction T as [|n T IH]; intros p cr Hnd; cbn [filter_nests]; [constructor|].
+  cbn [keys map] in Hnd. inversion Hnd as [|? ? Hnot Hnd']; subst.
+  destruct (negb (mem_str (n_class n) p)); [apply IH; exact Hnd'|].
+  pose proof (IH (if negb (mem_str (n_encl n) p) then p ++ [n_encl n] else p)
+                 (if negb (mem_str (n_encl n) p) then cr ++ [n_encl n] else cr) Hnd') as HF.
+  pose proof (filter_incl J T (if negb (mem_str (n_encl n) p) then p ++ [n_encl n] else p)
+                 (if negb (mem_str (n_encl n) p) then cr ++ [n_encl n] else cr)) as Hi.
+  destruct (filter_nests J T _ _) as [F c]. cbn [fst] in *.
+  destruct (kind_rule J n); [|exact HF]. cbn [keys map]. constructor; [|exact HF].
+  intros Hin. apply Hnot. unfold keys in *. apply in_map_iff in Hin. destruct Hin as (m & <- & Hm).
+  apply in_map. apply Hi. exact Hm.
+Qed.
+
+Theorem this_nests_nodup J T : NoDup (keys T) -> NoDup (keys (this_nests J T)).
+Proof. apply filter_nodup. Qed.
+
+(* a class that is not listed, or whose entry was filtered out, keeps its name *)
+Theorem jar_name_unchanged J T c :
+  NoDup (keys T) -> acyclic T -> ~ In c (keys (this_nests J T)) -> jar_name J T c = Ok c.
+Proof.
+  intros Hnd Ha Hc. rewrite jar_name_is_mapping_name_of_filtered by (apply this_nests_nodup; exact Hnd).
+  apply mapping_name_unlisted; [|exact Hc].
+  eapply acyclic_sub; [exact Hnd|apply this_nests_incl|apply this_nests_nodup; exact Hnd|exact Ha].
+Qed.
+
+(* and a class whose entry was kept is renamed to Enclosing$Inner through the kept entries *)
+Theorem jar_name_renamed J T c :
+  NoDup (keys T) -> acyclic T -> exists r, jar_name J T c = Ok r /\ trans (this_nests J T) c r.
+Proof.
+  intros Hnd Ha. pose proof (this_nests_nodup J T Hnd) as HndF.
+  assert (HaF : acyclic (this_nests J T))
+    by (eapply acyclic_sub; [exact Hnd|apply this_nests_incl|exact HndF|exact Ha]).
+  destruct (mapping_name_total (this_nests J T) c HaF) as (r & Hr).
+  exists r. rewrite jar_name_is_mapping_name_of_filtered by exact HndF. split; [exact Hr|].
+  apply mapping_name_trans; assumption.
+Qed.
